@@ -105,3 +105,54 @@ Proof.
   change (nth_crash (6 :: rest) 0) with (@Ok perr N 6). cbv iota.
   change (6 =? 17) with false. change (negb (6 =? 6)) with false. cbv iota. now rewrite H.
 Qed.
+
+(* ------------------------------------------------------------------ BLE round trips *)
+Definition adv_wf (f : advfields) : Prop :=
+  length (af_dev f) = 6%nat /\ af_cat f < 65536 /\ af_sn f < 65536
+  /\ (af_sh f = [] \/ length (af_sh f) = 4%nat).
+
+Lemma adv_roundtrip f :
+  adv_wf f ->
+  adv_parse (Some (render_adv f)) =
+  Ok {| ha_id := fmt_id (af_dev f); ha_cat := af_cat f; ha_sf := af_sf f; ha_cn := af_cn f;
+        ha_sn := af_sn f; ha_sh := af_sh f |}.
+Proof.
+  destruct f as [x sf dev cat sn cn cv sh]. unfold adv_wf. cbn [af_dev af_cat af_sn af_sh af_sf af_cn af_x af_cv].
+  intros (Hd & Hc & Hs & Hh).
+  destruct (len6 dev Hd) as (d0 & d1 & d2 & d3 & d4 & d5 & ->).
+  assert (E1 : cat mod 256 + 256 * (cat / 256 mod 256) = cat) by lia.
+  assert (E2 : sn mod 256 + 256 * (sn / 256 mod 256) = sn) by lia.
+  destruct Hh as [->|Hh].
+  - unfold render_adv, adv_parse. cbn. rewrite E1, E2. reflexivity.
+  - destruct sh as [|h0 [|h1 [|h2 [|h3 [|h4 sh]]]]]; cbn in Hh; try discriminate.
+    unfold render_adv, adv_parse. cbn. rewrite E1, E2. reflexivity.
+Qed.
+
+Lemma notif_roundtrip x advid payload :
+  length advid = 6%nat ->
+  notif_parse (Some (render_notif x advid payload)) =
+  Ok {| hn_id := fmt_id advid; hn_advid := advid; hn_payload := payload |}.
+Proof.
+  intros H. destruct (len6 advid H) as (d0 & d1 & d2 & d3 & d4 & d5 & ->).
+  unfold render_notif, notif_parse. cbn. reflexivity.
+Qed.
+
+(* the id produced by the BLE parsers is already lower case: 17 characters xx:xx:xx:xx:xx:xx *)
+Lemma hexd_lower n : n < 16 -> lower1 (hexd n) = hexd n.
+Proof.
+  intros H. unfold hexd, lower1. destruct (n <? 10) eqn:E.
+  - assert (65 <=? 48 + n = false) by lia. rewrite H0. reflexivity.
+  - assert (87 + n <=? 90 = false) by lia. rewrite H0. rewrite andb_false_r. reflexivity.
+Qed.
+
+Lemma fmt_id_lower x : Forall (fun b => b < 256) x -> lower (fmt_id x) = fmt_id x.
+Proof.
+  intros F. unfold fmt_id, lower. rewrite !map_app. cbn [map].
+  assert (P : forall j, map lower1 (hexpiece x j) = hexpiece x j).
+  { intros j. unfold hexpiece. destruct (nth_error x j) eqn:E; [|reflexivity].
+    apply nth_error_In in E. rewrite Forall_forall in F. apply F in E.
+    unfold hex2. cbn [map]. rewrite !hexd_lower; [reflexivity| |]; lia. }
+  rewrite !map_app. cbn [map]. rewrite !P.
+  repeat (rewrite ?map_app; cbn [map]; rewrite ?P).
+  reflexivity.
+Qed.
